@@ -7,7 +7,6 @@ import (
 	"go/token"
 	"go/types"
 	"regexp"
-	"regexp/syntax"
 	"sort"
 	"strings"
 	"unicode"
@@ -1537,52 +1536,61 @@ func c07IriAgreement(c *Ctx) {
 		r.Unknown("C07.H6", "compact-form-pattern", "", "the expander's compact-form regular expression was not found")
 		return
 	}
-	re, err := syntax.Parse(pat, syntax.Perl)
+	re, err := regexp.Compile(pat)
 	if err != nil {
-		r.Unknown("C07.H6", "compact-form-pattern", p.Pos(patPos), "the pattern does not parse: "+err.Error())
+		r.Unknown("C07.H6", "compact-form-pattern", p.Pos(patPos), "the pattern does not compile: "+err.Error())
 		return
 	}
-	var classes []*syntax.Regexp
-	var walk func(*syntax.Regexp)
-	walk = func(x *syntax.Regexp) {
-		if x.Op == syntax.OpCharClass {
-			classes = append(classes, x)
-		}
-		for _, s := range x.Sub {
-			walk(s)
-		}
-	}
-	walk(re)
-	if len(classes) != 2 {
-		r.Unknown("C07.H6", "compact-form-pattern", p.Pos(patPos), fmt.Sprintf("expected two character classes in %q, found %d", pat, len(classes)))
-		return
-	}
-	inClass := func(x *syntax.Regexp, ch rune) bool {
-		for i := 0; i+1 < len(x.Rune); i += 2 {
-			if ch >= x.Rune[i] && ch <= x.Rune[i+1] {
-				return true
-			}
-		}
-		return false
-	}
-	for i, pair := range []struct {
+	// containment of the grammar's IRIs in the pattern's language, decided on words: every character of each class alone
+	// and every pair of characters of the class, in the position the grammar allows them, with a plain other half
+	for _, pair := range []struct {
 		peg  *pegExpr
-		re   *syntax.Regexp
 		name string
-	}{{nsCls, classes[0], "prefix"}, {propCls, classes[1], "name"}} {
+		word func(part string) string
+	}{
+		{nsCls, "prefix", func(part string) string { return part + ".x" }},
+		{propCls, "name", func(part string) string { return "x." + part }},
+	} {
 		rs, ok := classRunes(pair.peg)
 		if !ok {
 			r.Unknown("C07.H6", "iri-"+pair.name, p.Pos(pair.peg.Pos), "unbounded grammar class")
 			continue
 		}
-		var missing []rune
+		var chars []rune
 		for _, ch := range rs {
-			if !inClass(pair.re, ch) && !unicode.IsSpace(ch) {
-				missing = append(missing, ch)
+			if !unicode.IsSpace(ch) {
+				chars = append(chars, ch)
 			}
 		}
-		_ = i
-		r.Check(len(missing) == 0, "C07.H6", "iri-"+pair.name, p.Pos(patPos), fmt.Sprintf("every character the grammar admits in an IRI %s is accepted by the expander", pair.name), fmt.Sprintf("the grammar admits %s in an IRI %s but the expander's compact-form check %q rejects them: a path the grammar accepts fails with 'not in compact form'", quoteRunes(missing), pair.name, pat))
+		missing := map[rune]bool{}
+		example := ""
+		for _, ch := range chars {
+			if w := pair.word(string(ch)); !re.MatchString(w) {
+				missing[ch] = true
+				if example == "" {
+					example = w
+				}
+			}
+		}
+		for _, a := range chars {
+			for _, b := range chars {
+				if missing[a] || missing[b] {
+					continue
+				}
+				if w := pair.word(string(a) + string(b)); !re.MatchString(w) {
+					missing[a], missing[b] = true, true
+					if example == "" {
+						example = w
+					}
+				}
+			}
+		}
+		var ms []rune
+		for ch := range missing {
+			ms = append(ms, ch)
+		}
+		sort.Slice(ms, func(i, j int) bool { return ms[i] < ms[j] })
+		r.Check(len(ms) == 0, "C07.H6", "iri-"+pair.name, p.Pos(patPos), fmt.Sprintf("every IRI %s of one or two characters the grammar admits is accepted by the expander (%d characters)", pair.name, len(chars)), fmt.Sprintf("the grammar admits %q as an IRI but the expander's compact-form check %q rejects it (characters involved: %s): a path the grammar accepts fails with 'not in compact form'", example, pat, quoteRunes(ms)))
 	}
 }
 
